@@ -174,7 +174,7 @@ Definition mp_reach_keys (cd : codec) (v : list N) : option (list key) :=
   | a1 :: a2 :: safi :: nhl :: r =>
     let fam := be16 a1 a2 * 65536 + safi in
     if len r <? nhl + 1 then None else
-    if negb (existsb (N.eqb nhl) [4; 16; 32; 12; 24]) && negb ((nhl =? 0) && is_flowspec fam) then None else
+    if negb (existsb (N.eqb nhl) [4; 16; 32; 12; 24; 48]) && negb ((nhl =? 0) && is_flowspec fam) then None else
     nlri_field cd fam true (skipn (N.to_nat nhl + 1) r)
   | _ => None
   end.
